@@ -199,6 +199,27 @@ def check(run):
     run.need(n >= 2, 'provenance sites found: %d' % n)
     lt = tu.func('ffi_list_types')
     cond = [nn for nn in cfg_of(tu, 'ffi_list_types').nodes if nn.kind == 'cond' and "s->name[0] == 36" in cx.render(nn.ast)]
+    # E: the layout-relevant flags of a struct do not depend on whether its fields get checked
+    from ..pyast import sympath as sp
+    sc = rc.find('Recompiler._struct_ctx')
+    stop = None
+    for k, st in enumerate(sc.body):
+        if isinstance(st, ast.Assign) and u(st.targets[0]) == 'flags' and 'join' in u(st.value):
+            stop = k
+    run.need(stop is not None, "Recompiler._struct_ctx: `flags = '|'.join(flags)` not found")
+    for label, partial, anon in (('fully declared', False, ()), ('partial (...)', True, ()), ('with an anonymous nested struct/union', False, (True,)), ('with only named members', False, (False, False))):
+        for packed in (0, 1):
+            ev = sp.Evaluator({'isinstance': lambda a, k, e, f: False, 'any': lambda a, k, e, f: any(a[0]) if a and isinstance(a[0], tuple) else sp.Opq('any(?)')},
+                              {'anonymous_struct_fields': lambda r, a, k, e, f, anon=anon: anon})
+            env = {'tp': {'fldtypes': ('t',), 'partial': partial, 'packed': packed}, 'named_ptr': None, 'self.ffi._parser._included_declarations': (),
+                   'self._typesdict': sp.Opq('typesdict')}
+            ps = ev.block(sc.body[:stop + 1], env, [], [])
+            if len(ps) != 1 or ps[0].outcome is not None:
+                raise AnalysisError('Recompiler._struct_ctx: flags not decided for a %s struct, packed=%d (%d paths)' % (label, packed, len(ps)))
+            fl = ps[0].env.get('flags')
+            ok = isinstance(fl, str) and (('_CFFI_F_PACKED' in fl.split('|')) == bool(packed))
+            run.ob('E/packed-flag-emitted-whenever-the-struct-is-packed', 'Recompiler._struct_ctx', '%s struct, packed=%d -> flags %s' % (label, packed, fl), ok, rc.where(sc),
+                   'the out-of-line module rebuilds the layout from these flags: without _CFFI_F_PACKED a packed struct gets the unpacked layout')
     run.ob('D/list-types-hides-dollar-names', 'ffi_list_types', "if (s->name[0] == '$') continue", len(cond) == 1, tu.where(lt))
     run.min_instances('A', 4)
     run.min_instances('B', 10)
